@@ -5,13 +5,9 @@ import cfg
 from c07 import order_rule
 
 
-def run(ctx, rep):
-    rep.exhaustive = True  # all propagation and return-type cells: the finite space the property quantifies over is enumerated completely
+def propagation_rule(ctx, rep, prop):
+    """T1 (shared with C07: a method of a oneway interface is oneway when its arguments are checked)"""
     facts = ctx.mir
-    rep.rule("T1", "A3 tabulation of validation::set_up_oneway_interface (through its iterator chain) over interface.oneway x element variant x method.oneway: "
-                   "not oneway -> no effect; Const -> nothing; oneway method -> one Warning on method.oneway_range and no assignment; otherwise the single effect method.oneway = true")
-    rep.rule("T2", "A3 tabulation of validation::check_method over method.oneway x 17 return-type categories: one Error on return_type.symbol_range iff oneway and not void; check_method_args always called")
-    rep.rule("T3", "A4 set_up_oneway_interface strictly before check_methods in the per-file closure, guarded only by 'item is an interface'")
     fn = facts.fn("validation::set_up_oneway_interface")
     el_variants = facts.variants("ast::InterfaceElement")
     rep.floor("T1", "InterfaceElement variants", len(el_variants), 2)
@@ -31,7 +27,7 @@ def run(ctx, rep):
                 paths = m.run("validation::set_up_oneway_interface", [Ref(Cell(itf), True), sym_ref("diagnostics", mut=True)])
                 key = "interface.oneway=%s|%s|method.oneway=%s" % (iow, elname, mow)
                 if len(paths) != 1 or paths[0].exit != "return":
-                    rep.fail("T1", "C10|T1|%s|paths" % key, cfg.where(fn), "expected one returning path, got %r" % ([p.exit for p in paths],))
+                    rep.fail("T1", "%s|T1|%s|paths" % (prop, key), cfg.where(fn), "expected one returning path, got %r" % ([p.exit for p in paths],))
                     continue
                 p = paths[0]
                 effs = [e for e in p.effects if e[0] not in ("iterate", "iterate_end")]
@@ -52,11 +48,22 @@ def run(ctx, rep):
                 ok = got == exp and not other and not early and (not iow or all(i[2] == "interface.elements" and "rev" not in i[3] for i in iters))
                 if iow:
                     ok = ok and len(iters) == 1
-                rep.check(ok, "T1", "C10|T1|%s" % key, pushes[0]["where"] if pushes else cfg.where(fn),
+                rep.check(ok, "T1", "%s|T1|%s" % (prop, key), pushes[0]["where"] if pushes else cfg.where(fn),
                           "cell (%s): expected diagnostics %r and assignments %r, extracted %r, other effects %r%s" % (key, exp[0], exp[1], got, other, ("; " + "; ".join(early)) if early else ""),
                           witness={"interface_oneway": iow, "member": elname, "method_oneway": mow},
                           sample={"cell": key, "diagnostics": repr(got[0]), "assignments": repr(got[1])})
     rep.floor("T1", "propagation cells", cells, 6)
+
+
+
+def run(ctx, rep):
+    rep.exhaustive = True  # all propagation and return-type cells: the finite space the property quantifies over is enumerated completely
+    facts = ctx.mir
+    rep.rule("T1", "A3 tabulation of validation::set_up_oneway_interface (through its iterator chain) over interface.oneway x element variant x method.oneway: "
+                   "not oneway -> no effect; Const -> nothing; oneway method -> one Warning on method.oneway_range and no assignment; otherwise the single effect method.oneway = true")
+    rep.rule("T2", "A3 tabulation of validation::check_method over method.oneway x 17 return-type categories: one Error on return_type.symbol_range iff oneway and not void; check_method_args always called")
+    rep.rule("T3", "A4 set_up_oneway_interface strictly before check_methods in the per-file closure, guarded only by 'item is an interface'")
+    propagation_rule(ctx, rep, "C10")
 
     # ---- T2
     fm = facts.fn("validation::check_method")
